@@ -109,6 +109,23 @@ def _check_shard(sc, module, name, recs):
     return res, summ[0], [o for o in out if "clause" in o]
 
 
+def _check_wideval(sc, name, cases):
+    d = sc.sub("chk-" + name)
+    mod = os.path.join(d, "WideEvalRun.tla")
+    with open(mod, "w") as f:
+        f.write("---- MODULE WideEvalRun ----\nEXTENDS WideEval\n====\n")
+    cf = os.path.join(d, "cases.json")
+    dump_json(cf, cases)
+    cfg = os.path.join(d, "chk.cfg")
+    write_cfg(cfg, invariants=["Finished"])
+    res = run_tlc(mod, cfg, lib_areas=("bounds",), workers=1, env={"CASES_FILE": cf}, metadir=os.path.join(d, "meta"), timeout=3000, heap="3g")
+    out = res.printed_json()
+    summ = [o for o in out if isinstance(o, dict) and o.get("summary")]
+    if not res.clean or len(summ) != 1 or summ[0]["cases"] != len(cases):
+        raise MachineryError("WideEval shard %s did not complete:\n%s" % (name, res.error_trace_tail(60)))
+    return res, summ[0], [o for o in out if isinstance(o, dict) and "clause" in o]
+
+
 def _exception_key(rec):
     """Stable name of a front-end crash: exception type + innermost compiler function (+ enum member, if any)."""
     first = rec["errors"][0] if rec["errors"] else "?"
@@ -350,6 +367,35 @@ def run(chk, only=None):
         if not all_fails:
             _selftest(chk, sc, recs)
             mark("selftest")
+        # ---- phase 4: values computed by the generated C++ at 64-bit scale (WideEval.tla)
+        if want("wideval") and wide:
+            from . import bounds_cpp
+            acc = [r for r in wide if r["status"] == "accepted" and r["pos"] == "let"]
+            acc.sort(key=lambda r: r["id"])
+            acc = acc[: t.get("wideval_cases", 240)]
+            wcases, wfail = bounds_cpp.evaluate(sc, acc, defs, n_env=t.get("wideval_envs", 6), nproc=JOBS)
+            for status, detail, ids in wfail:
+                chk.violation("wideval:%s" % status.lower(), "driver over the generated headers of accepted wide cases %s: %s\n%s" % (
+                    ids[:5], status, str(detail)[-2000:]), {"ids": ids})
+            if wcases:
+                wshards = [wcases[k::4] for k in range(4) if wcases[k::4]]
+                wjobs = [(lambda k=k, part=part: _check_wideval(sc, "we%d" % k, part)) for k, part in enumerate(wshards)]
+                nev = 0
+                for res, summ, fails in run_parallel(wjobs, nproc=4):
+                    chk.add_tlc(res, part="validate-wideval")
+                    nev += summ["evals"]
+                    for f in fails:
+                        rec = by_id[f["id"]]
+                        case = next(c for c in wcases if c["id"] == f["id"])
+                        env = case["envs"][f["env"] - 1]
+                        vals = {v["n"]: (-1 if v["neg"] else 1) * bounds_render.limbs_to_int(v["l"]) for v in env["vals"]}
+                        chk.violation("wideval:%s:%s" % (f["clause"], rec["e"].get("fn", rec["e"]["k"])),
+                                      "generated C++ computes a different value than the expression denotes: %s with %s: reference %s, "
+                                      "implementation %s\n%s" % (bounds_render.expr(rec["e"]), vals, f["want"], f["got"], rec["emb"]),
+                                      {"case": {k: v for k, v in rec.items() if k != "trees"}, "env": vals, "failure": f})
+                totals["wideval_evals"] = nev
+                chk.extra["wideval"] = {"accepted_cases_driven": len(wcases), "evaluations": nev}
+            mark("wideval")
         chk.extra["phase_wall_s"] = phases
         _report(chk, all_fails, by_id)
 
